@@ -31,9 +31,14 @@ def read_all(f):
     return len(f.read())
 
 
+STAGE = {}
+
+
 def trav_romfs(b):
     from pyctr.type.romfs import RomFSReader
+    STAGE['romfs'] = 'ctor'
     r = RomFSReader(io.BytesIO(b))
+    STAGE['romfs'] = 'walk'
     n = 0
     for p in r.walk.files('/'):
         with r.openbin(p) as f:
@@ -207,6 +212,68 @@ def bases():
     return _BASES
 
 
+def romfs_layout(b):
+    """positions (absolute, in the valid image b) of the lv3 header words and of every link field of the two metadata tables"""
+    lv3 = 0
+    if b[:4] == b'IVFC':
+        mh = int.from_bytes(b[8:12], 'little')
+        bs = 1 << int.from_bytes(b[0x4C:0x50], 'little')
+        lv3 = -(-(0x60 + mh) // bs) * bs
+    w = [int.from_bytes(b[lv3 + 4 * i:lv3 + 4 * i + 4], 'little') for i in range(10)]
+    dm_off, dm_size, fm_off, fm_size = w[3], w[4], w[7], w[8]
+    dirs, files, links = [], [], []
+    o = 0
+    while o + 0x18 <= dm_size:
+        dirs.append(o)
+        p = lv3 + dm_off + o
+        for name, d in (('d.parent', 0), ('d.sibling', 4), ('d.child', 8), ('d.file', 0xC), ('d.hash', 0x10)):
+            links.append((name, p + d))
+        o += 0x18 + (int.from_bytes(b[p + 0x14:p + 0x18], 'little') + 3) // 4 * 4
+    o = 0
+    while o + 0x20 <= fm_size:
+        files.append(o)
+        p = lv3 + fm_off + o
+        for name, d in (('f.parent', 0), ('f.sibling', 4), ('f.hash', 0x18)):
+            links.append((name, p + d))
+        o += 0x20 + (int.from_bytes(b[p + 0x1C:p + 0x20], 'little') + 3) // 4 * 4
+    return {'lv3': lv3, 'words': w, 'dirs': dirs, 'files': files, 'links': links}
+
+
+def romfs_cycles(lay):
+    """single link retargets that close a loop (or point an entry at itself)"""
+    out = []
+    for name, pos in lay['links']:
+        if name in ('d.sibling', 'd.child'):
+            out += [[['set', pos, 4, t]] for t in lay['dirs']]
+        elif name in ('f.sibling',):
+            out += [[['set', pos, 4, t]] for t in lay['files']]
+        elif name == 'd.file':
+            out += [[['set', pos, 4, t]] for t in lay['files'][:2]]
+    return out
+
+
+def romfs_header_profiles(lay):
+    """header rewrites: every single word to an extreme value, and *consistent* inflations (one region's size made huge and every
+    later offset pushed behind it, so that the ordering checks of the header still pass)"""
+    lv3, w = lay['lv3'], lay['words']
+    out = [[]]
+    for i in range(1, 10):
+        for v in (0, 0x7FFFFFFF, 0xFFFFFFE0, 0xFFFFFFFF):
+            out.append([['set', lv3 + 4 * i, 4, v]])
+    # regions: (offset word, size word): dirhash 1,2  dirmeta 3,4  filehash 5,6  filemeta 7,8  filedata 9
+    for k in (2, 4, 6, 8):
+        for top in (0xFFFFFFFF, 0x7FFFFFFF, 0x01000000):
+            m = [['set', lv3 + 4 * k, 4, top - w[k - 1] - 0x100 * (10 - k)]]
+            nxt = top - 0x100 * (10 - k)
+            for j in range(k + 1, 10, 2):
+                m.append(['set', lv3 + 4 * j, 4, nxt])          # later offsets
+                if j + 1 < 10:
+                    m.append(['set', lv3 + 4 * (j + 1), 4, 0x20])  # their sizes small
+                    nxt += 0x40
+            out.append(m)
+    return out
+
+
 def mutate(base, muts):
     b = bytearray(base)
     for m in muts:
@@ -276,9 +343,19 @@ class C19(Check):
         return {'kind': kind, 'muts': muts}
 
     def exhaustive(self, tier):
+        bs = bases()
+        # RomFS: every loop-closing link retarget x every header profile (single extreme words and consistent inflations)
+        for kind in ('romfs', 'romfs-ivfc'):
+            lay = romfs_layout(bs[kind][0])
+            cyc = romfs_cycles(lay)
+            prof = romfs_header_profiles(lay)
+            if tier != 'thorough':
+                cyc = cyc[::3]
+            for c in cyc:
+                for p in prof:
+                    yield {'kind': kind, 'muts': c + p}
         if tier != 'thorough':
             return
-        bs = bases()
         for kind in ('romfs', 'exefs', 'seeddb', 'lzss', 'tmd', 'diff'):
             base = bs[kind][0]
             lim = min(len(base), bs[kind][2] or len(base), 0x600)
@@ -313,7 +390,14 @@ class C19(Check):
         real = 'returned' if out[0] == 'ok' else ('raised' if out[0] == 'exc' else 'budget')
         # model side: the parsers whose cost is proved are run on the same bytes; the model is total, so it always answers
         model = real
-        if case['kind'] == 'seeddb':
+        if case['kind'] in ('romfs', 'romfs-ivfc') and out[0] != 'budget':
+            # the constructor (header checks + metadata walk, whose cost is the proved part) against the model, error class included
+            real = 'ok' if STAGE.get('romfs') == 'walk' else 'e:' + out[1]
+            m = drv.ask(('romfs-parse', data, 0, 0))
+            model = 'ok' if m.startswith('ok') else m.split()[0]
+            if model == 'e:unmodelled-block-size':
+                model = real
+        elif case['kind'] == 'seeddb':
             m = drv.ask(sexp(['seeddb', data]))
             model = 'returned' if m.startswith('ok') else 'raised'
         elif case['kind'] == 'lzss':
